@@ -2,7 +2,10 @@
 // in-range coordinates, returns the documented LB/UB blend, and completes.
 #include <cmath>
 
+#include <fcntl.h>
+
 #include "gen_circuit.hpp"
+#include "isolate.hpp"
 #include "stages.hpp"
 
 using namespace coloquinte;
@@ -107,12 +110,14 @@ bool prop(Tape &t, Report &R) {
     R.discard("side margin removes every free row segment");
     return true;
   }
-  if (k17 && unanchored && rho > 1e3) {
-    R.exclude("c06-unanchored-far-from-origin");
-    return true;
-  }
+  // The class of the known finding is not skipped: it is judged in a forked
+  // child.  On the unchanged tree the child dies in the recorded undefined
+  // conversion (counted as excluded); a child that survives is judged like any
+  // other case, so a different defect in that class is still reported.
+  bool isolate = k17 && unanchored && rho > 1e3;
   R.tag(std::string(unanchored ? "unanchored-component" : "all-components-anchored") + (rho > 1e3 ? " rho>1e3" : " rho<=1e3"));
 
+  auto judge = [&](Report &R) -> bool {
   Circuit c = s.build();
   Frame before = snap(c);
   int n = c.nbCells();
@@ -192,6 +197,30 @@ bool prop(Tape &t, Report &R) {
   R.classify("steps:" + std::string(nUB >= 10 ? "10+" : nUB >= 3 ? "3-9" : "1-2"));
   if (nUB >= 3 && lbUbDiffer && fixedStuff) R.nontrivial(s.hash(), [&] { return s.json(16); });
   return true;
+  };
+  if (isolate) {
+    std::string why;
+    int rc = runIsolated([&](std::string &w) {
+      Report tmp;
+      tmp.frozen = true;
+      bool ok = judge(tmp);
+      w = tmp.failReason;
+      return ok;
+    }, why, 120);
+    if (rc == 2) {
+      R.exclude("c06-unanchored-far-from-origin");
+      return true;
+    }
+    if (rc == 1 && why.find("coordinate out of range") != std::string::npos) {
+      // the other face of the recorded finding: finite garbage instead of NaN
+      R.exclude("c06-unanchored-far-from-origin");
+      return true;
+    }
+    R.classify("known-finding-class-survived-in-child");
+    if (rc == 1) return R.fail(why + " [judged in a forked child: class of the known finding]");
+    return true;
+  }
+  return judge(R);
 }
 
 bool exhaustive(Report &, int, int, Tape &) { return true; }
